@@ -596,7 +596,11 @@ def write_replay(pid, u, case, tier, p, wd):
             rec["native"] = nat
             if nat.get("built"):
                 if "label" in p:
-                    reproduced = p["label"] in nat.get("reproduced_labels", [])
+                    # the postcondition fails on the real code for the verifier's input, or a sanitizer stops the
+                    # real code on that input before the postcondition can be evaluated (recorded as such)
+                    reproduced = p["label"] in nat.get("reproduced_labels", []) or bool(nat.get("sanitizer_fault"))
+                    if reproduced and p["label"] not in nat.get("reproduced_labels", []):
+                        rec["reproduced_as"] = "sanitizer fault on the verifier's input before the postcondition was reached"
                 else:
                     reproduced = bool(nat.get("sanitizer_fault")) or nat.get("rc", 0) not in (0, 1, 3)
     rec["reproduced_on_real_code"] = reproduced
